@@ -425,6 +425,31 @@ def client_stage(c):
                          'out': enc_out(real[1]) if real[0] == 'ok' else None})
           stored_ok = {k: sl.tag(v) for k, v in stored_trial.items()} == {k: sl.tag(wire_py(v)) for k, v in a.items()}
           meta.append((bname, dumped, a, kind, real, space_changed, stored_ok))
+        # what a reader gets is a VALUE: editing the materialised configuration (deriving the next study from this one:
+        # drop a parameter, add another) must not change how the study's own trials are presented afterwards
+        first_reads = [(t, _try(lambda: dict(t.parameters))) for t, _, _ in handles[:4]]
+        cfg2 = _try(study.materialize_study_config)
+        if cfg2[0] == 'ok' and first_reads:
+          edited = False
+          try:
+            names = [pc.name for pc in cfg2[1].search_space.parameters]
+            if names:
+              cfg2[1].search_space.pop(names[0])
+            cfg2[1].search_space.root.add_float_param('c17_added', 0.0, 1.0)
+            edited = True
+          except Exception:  # pylint: disable=broad-except
+            pass
+          if edited:
+            for t, before in first_reads:
+              after = _try(lambda: dict(t.parameters))
+              c.traces += 1
+              same = (after[0] == before[0]) and (canon_real(after[1]) == canon_real(before[1]) if before[0] == 'ok' else type(after[1]) is type(before[1]))
+              if not same:
+                c.prop_fail('presentation-changes-after-caller-edits-returned-config',
+                            'after the caller edited the search space of a MATERIALISED copy of the study configuration, trial %s is presented as %s (before: %s) (%s)' % (
+                                t.id, str(after[1])[:160], str(before[1])[:160], bname),
+                            {'backend': bname, 'space': dumped, 'trial_id': t.id})
+                break
         if shared:
           # deleted by ANOTHER handle (another worker / an operator): `study` itself never learns of it
           gone = _try(lambda: clients.Study.from_resource_name(study.resource_name).delete())
